@@ -55,6 +55,12 @@ class MTSPAdapter(RoutingAdapter):
     props = {"C01": "check_C01", "C02": "check_C02", "C03": "check_C03", "C04": "check_C04", "C05": "check_C05"}
     reward_td = "final"          # minmax reads td["reward"] of the last step
     shard = 120
+    # keys of the step output compared with the row model after every step in C02 / C04 (Harness/HMTSP.v book_obs);
+    # i, current_node and first_node also against their definition (step count, last action, first action)
+    book_keys = (("i", "int"), ("current_node", "int"), ("first_node", "int"), ("agent_idx", "int"), ("current_length", "f"),
+                 ("max_subtour_length", "f"))
+    book_fn = "check_book"
+    book_type = "mtsp_book"
     tiny = 5                     # num_loc <= 5 (4 cities) is expanded exhaustively in the quick tier
 
     # ---------------------------------------------------------------- variants / env
